@@ -51,7 +51,7 @@ impl P {
         }
     }
     /// and / or / thresh in the concrete language (and, or are binary there)
-    fn to_concrete(&self, fix: &Fix) -> Option<Concrete<Pk>> {
+    pub fn to_concrete(&self, fix: &Fix) -> Option<Concrete<Pk>> {
         Some(match self {
             P::U => Concrete::Unsatisfiable,
             P::T => Concrete::Trivial,
